@@ -2,7 +2,7 @@
 
 HOOKS = {
     "guard": "verif",
-    "enable": "go test -tags verif -overlay <generated>  (harness files are overlaid from /verif/harness; hooks, if any, are //go:build verif files in /repo)",
+    "enable": "no hook is compiled into /repo: every check builds /repo's current working tree with `go test -overlay <generated>`, which adds the in-package harness files /verif/harness/<pkg>/zz_verif_*_test.go (and, for C05, three non-test shim files zz_verif_c05_shim.go that expose one step of a background worker's own loop body) to the build without touching the repository; the build tag `verif` is reserved and unused",
     "baseline_off_cmd": "cd /repo && GOFLAGS=-mod=mod GOPROXY=off go test -vet=off -count=1 -timeout 25m ./...",
     "source_commits": [],
     "add_only": True,
